@@ -186,8 +186,11 @@ def build(ch):
 
     def companion(i, cdp, label_prefix, in_types=False):
         ca = Abbrev(code[7 if i == 2 else 5], TAG['type_unit'] if in_types else TAG['compile_unit'], True, [(AT['name'], F['string'], None)])
-        cb = Abbrev(code[8 if i == 2 else 6], TAG['base_type'], False, [(AT['name'], F['string'], None), (AT['byte_size'], F['data1'], None)])
-        kids2 = [Die(cb, [b'int%d' % i, 4], label=label_prefix + '_die'), null()]
+        cb = Abbrev(code[8 if i == 2 else 6], TAG['base_type'], False, [(AT['name'], F['string'], None), (AT['byte_size'], F['data1'], None)]
+                    + ([(AT['type'], F['ref_addr'], None)] if in_types else []))
+        # the type unit's entry points into .debug_info with a section-relative reference; the unit is long enough for that offset to fall numerically inside
+        # the type unit's own extent in .debug_types (a reference resolved against the wrong section would find *something* there)
+        kids2 = [Die(cb, [b'int%d' % i + (b'_' * 90 if in_types else b''), 4] + ([('ref', allreal[-1].label)] if in_types else []), label=label_prefix + '_die'), null()]
         r = Die(ca, [b'companion%d' % i], kids2, label=label_prefix + '_root')
         return Unit(cdp, r, unit_type=(UT['compile'] if cdp.version >= 5 else None), abbrev_key=('shared' if abmode == 'shared' else 'own'),
                     in_types=in_types, type_die_label=(label_prefix + '_die' if in_types else None), type_signature=0x0102030405060708)
@@ -450,6 +453,12 @@ def run(ch):
                 g = guarded(lambda: dw.get_DIE_by_sig8(u.type_signature).offset)
                 if g != u.offset + u.type_offset:
                     fails.append(('get_DIE_by_sig8()', u.offset + u.type_offset, g))
+                # the section-relative reference out of the type unit designates an entry of .debug_info
+                tgt = [d for d in info_units[0].dies if d.abbrev is not None][-1] if info_units else None
+                if tgt is not None and not fails:
+                    g = guarded(lambda: (lambda x: (x.offset, x.abbrev_code, type(x.cu).__name__))(dw.get_DIE_by_sig8(u.type_signature).get_DIE_from_attribute('DW_AT_type')))
+                    if g != (tgt.offset, tgt.abbrev.code, 'CompileUnit'):
+                        fails.append(('type unit entry: get_DIE_from_attribute(DW_AT_type, ref_addr)', (tgt.offset, tgt.abbrev.code, 'CompileUnit'), g))
     ndies = sum(len(u.dies) for u in units)
     return Case(fails, data, repr(outs), nontrivial=ndies > 0,
                 sample={'version': dp.version, 'format': dp.fmt, 'address_size': dp.addr, 'le': dp.le, 'probe': info['probe'], 'probe_value': info['probe_value'],
